@@ -25,79 +25,79 @@ open Enc Enc.Model.Thrift Enc.Lemmas.ThriftPrim Enc.Lemmas.ThriftSkip
 
 /-! ## (A) totality -/
 
-theorem skip_total (p : Proto) (fuel : Nat) (t : TType) (b : Bytes) (e : String) : skip p fuel t b ≠ .panic e :=
-  np_skip p fuel t b e
-theorem skipN_total (p : Proto) (fuel : Nat) (t : TType) (n : Nat) (b : Bytes) (e : String) :
-    skipN p fuel t n b ≠ .panic e := np_skipN p fuel t n b e
-theorem skipPairs_total (p : Proto) (fuel : Nat) (kt vt : TType) (n : Nat) (b : Bytes) (e : String) :
-    skipPairs p fuel kt vt n b ≠ .panic e := np_skipPairs p fuel kt vt n b e
-theorem skipStruct_total (p : Proto) (fuel : Nat) (b : Bytes) (last : Int) (num : Nat) (e : String) :
-    skipStruct p fuel b last num ≠ .panic e := np_skipStruct p fuel b last num e
+theorem skip_total (p : Proto) (d fuel : Nat) (t : TType) (b : Bytes) (e : String) : skip p d fuel t b ≠ .panic e :=
+  np_skip p d fuel t b e
+theorem skipN_total (p : Proto) (d fuel : Nat) (t : TType) (n : Nat) (b : Bytes) (e : String) :
+    skipN p d fuel t n b ≠ .panic e := np_skipN p d fuel t n b e
+theorem skipPairs_total (p : Proto) (d fuel : Nat) (kt vt : TType) (n : Nat) (b : Bytes) (e : String) :
+    skipPairs p d fuel kt vt n b ≠ .panic e := np_skipPairs p d fuel kt vt n b e
+theorem skipStruct_total (p : Proto) (d fuel : Nat) (b : Bytes) (last : Int) (num : Nat) (e : String) :
+    skipStruct p d fuel b last num ≠ .panic e := np_skipStruct p d fuel b last num e
 
 /-- for every protocol, mode, fuel, supported type, byte string and current value -/
-theorem decode_total (p : Proto) (strict : Bool) (fuel : Nat) (ty : Ty) (b : Bytes) (cur : Val) (e : String)
-    (h : Supported ty = true) : decode p strict fuel ty b cur ≠ .panic e := np_decode p strict fuel ty b cur h e
-theorem decodeList_total (p : Proto) (strict : Bool) (fuel : Nat) (et : Ty) (n : Nat) (b : Bytes) (acc : List Val)
-    (e : String) (h : Supported et = true) : decodeList p strict fuel et n b acc ≠ .panic e :=
-  np_decodeList p strict fuel et n b acc h e
-theorem decodeSet_total (p : Proto) (strict : Bool) (fuel : Nat) (kt : Ty) (n : Nat) (b : Bytes) (acc : Vals)
-    (e : String) (h : Supported kt = true) : decodeSet p strict fuel kt n b acc ≠ .panic e :=
-  np_decodeSet p strict fuel kt n b acc h e
-theorem decodeMap_total (p : Proto) (strict : Bool) (fuel : Nat) (kt vt : Ty) (n : Nat) (b : Bytes) (acc : Vals)
+theorem decode_total (p : Proto) (strict : Bool) (d fuel : Nat) (ty : Ty) (b : Bytes) (cur : Val) (e : String)
+    (h : Supported ty = true) : decode p strict d fuel ty b cur ≠ .panic e := np_decode p strict d fuel ty b cur h e
+theorem decodeList_total (p : Proto) (strict : Bool) (d fuel : Nat) (et : Ty) (n : Nat) (b : Bytes) (acc : List Val)
+    (e : String) (h : Supported et = true) : decodeList p strict d fuel et n b acc ≠ .panic e :=
+  np_decodeList p strict d fuel et n b acc h e
+theorem decodeSet_total (p : Proto) (strict : Bool) (d fuel : Nat) (kt : Ty) (n : Nat) (b : Bytes) (acc : Vals)
+    (e : String) (h : Supported kt = true) : decodeSet p strict d fuel kt n b acc ≠ .panic e :=
+  np_decodeSet p strict d fuel kt n b acc h e
+theorem decodeMap_total (p : Proto) (strict : Bool) (d fuel : Nat) (kt vt : Ty) (n : Nat) (b : Bytes) (acc : Vals)
     (e : String) (hk : Supported kt = true) (hv : Supported vt = true) :
-    decodeMap p strict fuel kt vt n b acc ≠ .panic e := np_decodeMap p strict fuel kt vt n b acc hk hv e
-theorem decodeStruct_total (p : Proto) (strict : Bool) (fuel : Nat) (fs : Fields) (b : Bytes) (vs : Vals)
+    decodeMap p strict d fuel kt vt n b acc ≠ .panic e := np_decodeMap p strict d fuel kt vt n b acc hk hv e
+theorem decodeStruct_total (p : Proto) (strict : Bool) (d fuel : Nat) (fs : Fields) (b : Bytes) (vs : Vals)
     (last : Int) (num : Nat) (seen : List Int) (e : String) (h : SupportedF fs = true) :
-    decodeStruct p strict fuel (fieldDescs fs) b vs last num seen ≠ .panic e :=
-  np_decodeStruct p strict fuel _ b vs last num seen (supported_descs fs h) e
+    decodeStruct p strict d fuel (fieldDescs fs) b vs last num seen ≠ .panic e :=
+  np_decodeStruct p strict d fuel _ b vs last num seen (supported_descs fs h) e
 theorem unmarshal_total (p : Proto) (strict : Bool) (ty : Ty) (b : Bytes) (e : String) (h : Supported ty = true) :
     unmarshal p strict ty b ≠ .panic e := np_unmarshal p strict ty b h e
 
 /-! ## (B) consumption -/
 
 /-- a successful decode returns a proper suffix of its input (≥ 1 byte consumed) … -/
-theorem decode_consumes {p : Proto} {strict : Bool} {fuel : Nat} {ty : Ty} {b : Bytes} {cur v : Val} {r : Bytes}
-    (h : decode p strict fuel ty b cur = .ok (v, r)) : (∃ x, b = x ++ r) ∧ r.length < b.length :=
-  ⟨((pre_decode p strict fuel ty cur).suffix h).1, (pre_decode p strict fuel ty cur).consumes h⟩
+theorem decode_consumes {p : Proto} {strict : Bool} {d fuel : Nat} {ty : Ty} {b : Bytes} {cur v : Val} {r : Bytes}
+    (h : decode p strict d fuel ty b cur = .ok (v, r)) : (∃ x, b = x ++ r) ∧ r.length < b.length :=
+  ⟨((pre_decode p strict d fuel ty cur).suffix h).1, (pre_decode p strict d fuel ty cur).consumes h⟩
 
 /-- … and the decoded value depends on the consumed bytes only -/
-theorem decode_local {p : Proto} {strict : Bool} {fuel : Nat} {ty : Ty} {x r : Bytes} {cur v : Val}
-    (h : decode p strict fuel ty (x ++ r) cur = .ok (v, r)) (r' : Bytes) :
-    decode p strict fuel ty (x ++ r') cur = .ok (v, r') :=
-  (pre_decode p strict fuel ty cur).local h r'
+theorem decode_local {p : Proto} {strict : Bool} {d fuel : Nat} {ty : Ty} {x r : Bytes} {cur v : Val}
+    (h : decode p strict d fuel ty (x ++ r) cur = .ok (v, r)) (r' : Bytes) :
+    decode p strict d fuel ty (x ++ r') cur = .ok (v, r') :=
+  (pre_decode p strict d fuel ty cur).local h r'
 
-theorem skip_consumes {p : Proto} {fuel : Nat} {t : TType} {b r : Bytes} {u : Unit}
-    (h : skip p fuel t b = .ok (u, r)) : (∃ x, b = x ++ r) ∧ r.length < b.length :=
-  ⟨((pre_skip p fuel t).suffix h).1, (pre_skip p fuel t).consumes h⟩
+theorem skip_consumes {p : Proto} {d fuel : Nat} {t : TType} {b r : Bytes} {u : Unit}
+    (h : skip p d fuel t b = .ok (u, r)) : (∃ x, b = x ++ r) ∧ r.length < b.length :=
+  ⟨((pre_skip p d fuel t).suffix h).1, (pre_skip p d fuel t).consumes h⟩
 
-theorem skip_local {p : Proto} {fuel : Nat} {t : TType} {x r : Bytes} {u : Unit}
-    (h : skip p fuel t (x ++ r) = .ok (u, r)) (r' : Bytes) : skip p fuel t (x ++ r') = .ok (u, r') :=
-  (pre_skip p fuel t).local h r'
+theorem skip_local {p : Proto} {d fuel : Nat} {t : TType} {x r : Bytes} {u : Unit}
+    (h : skip p d fuel t (x ++ r) = .ok (u, r)) (r' : Bytes) : skip p d fuel t (x ++ r') = .ok (u, r') :=
+  (pre_skip p d fuel t).local h r'
 
-theorem skipN_consumes {p : Proto} {fuel : Nat} {t : TType} {n : Nat} {b r : Bytes} {u : Unit}
-    (h : skipN p fuel t n b = .ok (u, r)) : (∃ x, b = x ++ r) ∧ r.length ≤ b.length :=
-  (pre_skipN p fuel t n).suffix h
-theorem skipPairs_consumes {p : Proto} {fuel : Nat} {kt vt : TType} {n : Nat} {b r : Bytes} {u : Unit}
-    (h : skipPairs p fuel kt vt n b = .ok (u, r)) : (∃ x, b = x ++ r) ∧ r.length ≤ b.length :=
-  (pre_skipPairs p fuel kt vt n).suffix h
-theorem skipStruct_consumes {p : Proto} {fuel : Nat} {last : Int} {num : Nat} {b r : Bytes} {u : Unit}
-    (h : skipStruct p fuel b last num = .ok (u, r)) : (∃ x, b = x ++ r) ∧ r.length < b.length :=
-  ⟨((pre_skipStruct p fuel last num).suffix h).1, (pre_skipStruct p fuel last num).consumes h⟩
-theorem decodeList_consumes {p : Proto} {strict : Bool} {fuel : Nat} {et : Ty} {n : Nat} {acc : List Val} {b r : Bytes}
-    {v : Val} (h : decodeList p strict fuel et n b acc = .ok (v, r)) : (∃ x, b = x ++ r) ∧ r.length ≤ b.length :=
-  (pre_decodeList p strict fuel et n acc).suffix h
-theorem decodeSet_consumes {p : Proto} {strict : Bool} {fuel : Nat} {kt : Ty} {n : Nat} {acc : Vals} {b r : Bytes}
-    {v : Val} (h : decodeSet p strict fuel kt n b acc = .ok (v, r)) : (∃ x, b = x ++ r) ∧ r.length ≤ b.length :=
-  (pre_decodeSet p strict fuel kt n acc).suffix h
-theorem decodeMap_consumes {p : Proto} {strict : Bool} {fuel : Nat} {kt vt : Ty} {n : Nat} {acc : Vals} {b r : Bytes}
-    {v : Val} (h : decodeMap p strict fuel kt vt n b acc = .ok (v, r)) : (∃ x, b = x ++ r) ∧ r.length ≤ b.length :=
-  (pre_decodeMap p strict fuel kt vt n acc).suffix h
-theorem decodeStruct_consumes {p : Proto} {strict : Bool} {fuel : Nat} {descs : List FieldDesc} {vs : Vals} {last : Int}
+theorem skipN_consumes {p : Proto} {d fuel : Nat} {t : TType} {n : Nat} {b r : Bytes} {u : Unit}
+    (h : skipN p d fuel t n b = .ok (u, r)) : (∃ x, b = x ++ r) ∧ r.length ≤ b.length :=
+  (pre_skipN p d fuel t n).suffix h
+theorem skipPairs_consumes {p : Proto} {d fuel : Nat} {kt vt : TType} {n : Nat} {b r : Bytes} {u : Unit}
+    (h : skipPairs p d fuel kt vt n b = .ok (u, r)) : (∃ x, b = x ++ r) ∧ r.length ≤ b.length :=
+  (pre_skipPairs p d fuel kt vt n).suffix h
+theorem skipStruct_consumes {p : Proto} {d fuel : Nat} {last : Int} {num : Nat} {b r : Bytes} {u : Unit}
+    (h : skipStruct p d fuel b last num = .ok (u, r)) : (∃ x, b = x ++ r) ∧ r.length < b.length :=
+  ⟨((pre_skipStruct p d fuel last num).suffix h).1, (pre_skipStruct p d fuel last num).consumes h⟩
+theorem decodeList_consumes {p : Proto} {strict : Bool} {d fuel : Nat} {et : Ty} {n : Nat} {acc : List Val} {b r : Bytes}
+    {v : Val} (h : decodeList p strict d fuel et n b acc = .ok (v, r)) : (∃ x, b = x ++ r) ∧ r.length ≤ b.length :=
+  (pre_decodeList p strict d fuel et n acc).suffix h
+theorem decodeSet_consumes {p : Proto} {strict : Bool} {d fuel : Nat} {kt : Ty} {n : Nat} {acc : Vals} {b r : Bytes}
+    {v : Val} (h : decodeSet p strict d fuel kt n b acc = .ok (v, r)) : (∃ x, b = x ++ r) ∧ r.length ≤ b.length :=
+  (pre_decodeSet p strict d fuel kt n acc).suffix h
+theorem decodeMap_consumes {p : Proto} {strict : Bool} {d fuel : Nat} {kt vt : Ty} {n : Nat} {acc : Vals} {b r : Bytes}
+    {v : Val} (h : decodeMap p strict d fuel kt vt n b acc = .ok (v, r)) : (∃ x, b = x ++ r) ∧ r.length ≤ b.length :=
+  (pre_decodeMap p strict d fuel kt vt n acc).suffix h
+theorem decodeStruct_consumes {p : Proto} {strict : Bool} {d fuel : Nat} {descs : List FieldDesc} {vs : Vals} {last : Int}
     {num : Nat} {seen : List Int} {b r : Bytes} {o : Vals × List Int}
-    (h : decodeStruct p strict fuel descs b vs last num seen = .ok (o, r)) :
+    (h : decodeStruct p strict d fuel descs b vs last num seen = .ok (o, r)) :
     (∃ x, b = x ++ r) ∧ r.length < b.length :=
-  ⟨((pre_decodeStruct p strict fuel descs vs last num seen).suffix h).1,
-    (pre_decodeStruct p strict fuel descs vs last num seen).consumes h⟩
+  ⟨((pre_decodeStruct p strict d fuel descs vs last num seen).suffix h).1,
+    (pre_decodeStruct p strict d fuel descs vs last num seen).consumes h⟩
 
 /-! ## (C1) primitives: every proper prefix of what a successful read consumed fails — `"eof"` exactly when nothing is
 left (`k = 0`), `"unexpectedEof"` otherwise. `k < b.length - r.length` = "cut inside the consumed part". -/
@@ -151,41 +151,41 @@ theorem rBytes_trunc {p : Proto} {b : Bytes} {x r : Bytes} (h : rBytes p b = .ok
 `b.length - r.length` bytes), then on every proper prefix of the consumed part it fails with `"eof"` when the prefix is
 empty and `"unexpectedEof"` otherwise. Never a value, never another class (`typeMismatch`, `missingField`, `range`,
 `fuel`, …). -/
-theorem decode_trunc_strict {p : Proto} {strict : Bool} {fuel : Nat} {ty : Ty} {b : Bytes} {cur v : Val} {r : Bytes}
-    (h : decode p strict fuel ty b cur = .ok (v, r)) (k : Nat) (hk : k < b.length - r.length) :
-    decode p strict fuel ty (b.take k) cur = .err (if k = 0 then "eof" else "unexpectedEof") :=
-  (pre_decode p strict fuel ty cur).truncS h k hk
+theorem decode_trunc_strict {p : Proto} {strict : Bool} {d fuel : Nat} {ty : Ty} {b : Bytes} {cur v : Val} {r : Bytes}
+    (h : decode p strict d fuel ty b cur = .ok (v, r)) (k : Nat) (hk : k < b.length - r.length) :
+    decode p strict d fuel ty (b.take k) cur = .err (if k = 0 then "eof" else "unexpectedEof") :=
+  (pre_decode p strict d fuel ty cur).truncS h k hk
 
 /-- the same, spelled as in the property: EOF class, plain EOF only (and always) for the empty prefix -/
-theorem decode_trunc {p : Proto} {strict : Bool} {fuel : Nat} {ty : Ty} {b : Bytes} {cur v : Val} {r : Bytes}
-    (h : decode p strict fuel ty b cur = .ok (v, r)) (k : Nat) (hk : k < b.length - r.length) :
-    (k = 0 → decode p strict fuel ty (b.take k) cur = .err "eof") ∧
-      (0 < k → decode p strict fuel ty (b.take k) cur = .err "unexpectedEof") := by
+theorem decode_trunc {p : Proto} {strict : Bool} {d fuel : Nat} {ty : Ty} {b : Bytes} {cur v : Val} {r : Bytes}
+    (h : decode p strict d fuel ty b cur = .ok (v, r)) (k : Nat) (hk : k < b.length - r.length) :
+    (k = 0 → decode p strict d fuel ty (b.take k) cur = .err "eof") ∧
+      (0 < k → decode p strict d fuel ty (b.take k) cur = .err "unexpectedEof") := by
   rw [decode_trunc_strict h k hk]
   exact ⟨fun h0 => by simp [h0], fun h0 => by have : ¬ k = 0 := by omega
                                               simp [this]⟩
 
-theorem decode_prefix_not_ok {p : Proto} {strict : Bool} {fuel : Nat} {ty : Ty} {b : Bytes} {cur v : Val} {r : Bytes}
-    (h : decode p strict fuel ty b cur = .ok (v, r)) (k : Nat) (hk : k < b.length - r.length) (o : Val × Bytes) :
-    decode p strict fuel ty (b.take k) cur ≠ .ok o := by
+theorem decode_prefix_not_ok {p : Proto} {strict : Bool} {d fuel : Nat} {ty : Ty} {b : Bytes} {cur v : Val} {r : Bytes}
+    (h : decode p strict d fuel ty b cur = .ok (v, r)) (k : Nat) (hk : k < b.length - r.length) (o : Val × Bytes) :
+    decode p strict d fuel ty (b.take k) cur ≠ .ok o := by
   rw [decode_trunc_strict h k hk]; intro h'; cases h'
 
 /-- the same for the skipper, every wire type -/
-theorem skip_trunc {p : Proto} {fuel : Nat} {t : TType} {b r : Bytes} {u : Unit}
-    (h : skip p fuel t b = .ok (u, r)) (k : Nat) (hk : k < b.length - r.length) :
-    skip p fuel t (b.take k) = .err (if k = 0 then "eof" else "unexpectedEof") :=
-  (pre_skip p fuel t).truncS h k hk
+theorem skip_trunc {p : Proto} {d fuel : Nat} {t : TType} {b r : Bytes} {u : Unit}
+    (h : skip p d fuel t b = .ok (u, r)) (k : Nat) (hk : k < b.length - r.length) :
+    skip p d fuel t (b.take k) = .err (if k = 0 then "eof" else "unexpectedEof") :=
+  (pre_skip p d fuel t).truncS h k hk
 
 /-- the struct loop: at the first field header (`num = 0`) an empty input is `"eof"`; everywhere else — inside a header,
 inside a value, inside a skipped unknown field, and AT a field boundary, where the loop wants a header or the stop
 byte — it is `"unexpectedEof"`. In particular a prefix never yields `"missingField"`: the required-fields check runs
 only after the stop byte has been read. -/
-theorem decodeStruct_trunc {p : Proto} {strict : Bool} {fuel : Nat} {descs : List FieldDesc} {vs : Vals} {last : Int}
+theorem decodeStruct_trunc {p : Proto} {strict : Bool} {d fuel : Nat} {descs : List FieldDesc} {vs : Vals} {last : Int}
     {num : Nat} {seen : List Int} {b r : Bytes} {o : Vals × List Int}
-    (h : decodeStruct p strict fuel descs b vs last num seen = .ok (o, r)) (k : Nat) (hk : k < b.length - r.length) :
-    decodeStruct p strict fuel descs (b.take k) vs last num seen =
+    (h : decodeStruct p strict d fuel descs b vs last num seen = .ok (o, r)) (k : Nat) (hk : k < b.length - r.length) :
+    decodeStruct p strict d fuel descs (b.take k) vs last num seen =
       .err (if k = 0 ∧ num = 0 then "eof" else "unexpectedEof") := by
-  obtain ⟨e, he, hp⟩ := (pre_decodeStruct p strict fuel descs vs last num seen).trunc h k hk
+  obtain ⟨e, he, hp⟩ := (pre_decodeStruct p strict d fuel descs vs last num seen).trunc h k hk
   rw [he]
   unfold PStruct at hp
   by_cases hn : num = 0
@@ -196,47 +196,66 @@ theorem decodeStruct_trunc {p : Proto} {strict : Bool} {fuel : Nat} {descs : Lis
     unfold PU at hp
     simp [hp, hn]
 
-/-! ### on what the encoder writes -/
+/-! ### on what the encoder writes
+
+The decoder counts the lists, sets, maps and structs it has entered (`d`) and answers `"maxDepth"` at
+`Gen.c_thrift_maxDepth`; the encoder has no such limit. So "the full encoding decodes" — and with it every statement
+about the prefixes of an ENCODING — needs room for the type's own nesting: `d + nest ty ≤ maxDepth` (`nest ty ≤ maxDepth`
+at the entry point, where `d = 0`). `decode_too_deep` shows the hypothesis cannot be dropped. The any-input theorems
+(`decode_trunc_strict`, `unmarshal_trunc_strict`, …) need nothing: a depth error is just another error. -/
 
 /-- **Truncation of encoder output, universe `RT`** (scalars, strings, []byte, lists of any nesting, pointers, named
 types): every proper prefix of `encode p ty v` is rejected with the exact EOF class, both protocols, strict or not. -/
 theorem decode_encode_trunc_strict (p : Proto) (strict : Bool) (ty : Ty) (v : Val) (h : RT ty v = true)
-    (fuel : Nat) (hf : fuelD ty v ≤ fuel) (cur : Val) (k : Nat) (hk : k < (encode p ty v).length) :
-    decode p strict fuel ty ((encode p ty v).take k) cur = .err (if k = 0 then "eof" else "unexpectedEof") := by
-  have hrt := decode_encode p strict ty v h fuel [] cur hf
+    (d fuel : Nat) (hd : d + nest ty ≤ Gen.c_thrift_maxDepth) (hf : fuelD ty v ≤ fuel) (cur : Val) (k : Nat)
+    (hk : k < (encode p ty v).length) :
+    decode p strict d fuel ty ((encode p ty v).take k) cur = .err (if k = 0 then "eof" else "unexpectedEof") := by
+  have hrt := decode_encode p strict ty v h d fuel [] cur hd hf
   rw [List.append_nil] at hrt
   exact decode_trunc_strict hrt k (by simpa using hk)
 
-theorem decode_encode_trunc (p : Proto) (strict : Bool) (ty : Ty) (v : Val) (h : RT ty v = true) (fuel : Nat)
-    (hf : fuelD ty v ≤ fuel) (cur : Val) (k : Nat) (hk : k < (encode p ty v).length) :
-    (k = 0 → decode p strict fuel ty ((encode p ty v).take k) cur = .err "eof") ∧
-      (0 < k → decode p strict fuel ty ((encode p ty v).take k) cur = .err "unexpectedEof") := by
-  have hrt := decode_encode p strict ty v h fuel [] cur hf
+theorem decode_encode_trunc (p : Proto) (strict : Bool) (ty : Ty) (v : Val) (h : RT ty v = true) (d fuel : Nat)
+    (hd : d + nest ty ≤ Gen.c_thrift_maxDepth) (hf : fuelD ty v ≤ fuel) (cur : Val) (k : Nat)
+    (hk : k < (encode p ty v).length) :
+    (k = 0 → decode p strict d fuel ty ((encode p ty v).take k) cur = .err "eof") ∧
+      (0 < k → decode p strict d fuel ty ((encode p ty v).take k) cur = .err "unexpectedEof") := by
+  have hrt := decode_encode p strict ty v h d fuel [] cur hd hf
   rw [List.append_nil] at hrt
   exact decode_trunc hrt k (by simpa using hk)
 
+/-- the depth hypothesis is needed: at the limit a list is refused (after its header), whatever follows -/
+theorem decode_too_deep (p : Proto) (strict : Bool) (d fuel : Nat) (hd : Gen.c_thrift_maxDepth ≤ d) (cur : Val)
+    (rest : Bytes) :
+    decode p strict d (fuel + 1) (.slice .bool) (encode p (.slice .bool) (.list .nil) ++ rest) cur
+      = .err "maxDepth" := by
+  rw [decode_slice, encode_slice]
+  have hl := rList_wList p .bool 0 (by decide) (by decide) rest
+  simp only [isU8, Bool.false_eq_true, if_false, typeOf, Vals.toList, Vals.length, List.map_nil, List.flatten_nil,
+    List.append_nil, hl, Res.bind, tooDeep_true d hd, if_true]
+  simp
+
 /-- **Truncation of encoder output under the skipper, universe `WF`** (everything the encoder supports: structs with
 delta ids and coalesced bools, maps, sets, lists, nested to any depth): a cut encoding is never skipped "successfully" -/
-theorem skip_encode_trunc (p : Proto) (ty : Ty) (v : Val) (h : WF ty v = true) (fuel : Nat)
-    (hf : fuelOf ty v ≤ fuel) (k : Nat) (hk : k < (encode p ty v).length) :
-    skip p fuel (typeOf ty) ((encode p ty v).take k) = .err (if k = 0 then "eof" else "unexpectedEof") := by
-  have hrt := skip_encode p ty v h fuel [] hf
+theorem skip_encode_trunc (p : Proto) (ty : Ty) (v : Val) (h : WF ty v = true) (d fuel : Nat)
+    (hd : d + nest ty ≤ Gen.c_thrift_maxDepth) (hf : fuelOf ty v ≤ fuel) (k : Nat) (hk : k < (encode p ty v).length) :
+    skip p d fuel (typeOf ty) ((encode p ty v).take k) = .err (if k = 0 then "eof" else "unexpectedEof") := by
+  have hrt := skip_encode p ty v h d fuel [] hd hf
   rw [List.append_nil] at hrt
   exact skip_trunc hrt k (by simpa using hk)
 
 /-- any universe on which the round trip succeeds: hypothesis = the full encoding decodes -/
-theorem decode_encode_trunc_of_ok (p : Proto) (strict : Bool) (ty : Ty) (v v' : Val) (fuel : Nat) (cur : Val)
-    (hrt : decode p strict fuel ty (encode p ty v) cur = .ok (v', [])) (k : Nat) (hk : k < (encode p ty v).length) :
-    decode p strict fuel ty ((encode p ty v).take k) cur = .err (if k = 0 then "eof" else "unexpectedEof") :=
+theorem decode_encode_trunc_of_ok (p : Proto) (strict : Bool) (ty : Ty) (v v' : Val) (d fuel : Nat) (cur : Val)
+    (hrt : decode p strict d fuel ty (encode p ty v) cur = .ok (v', [])) (k : Nat) (hk : k < (encode p ty v).length) :
+    decode p strict d fuel ty ((encode p ty v).take k) cur = .err (if k = 0 then "eof" else "unexpectedEof") :=
   decode_trunc_strict hrt k (by simpa using hk)
 
-/-! ## (D) trailing bytes, and the entry point -/
+/-! ## (D) trailing bytes, and the entry point (`Unmarshal` starts at depth 0) -/
 
 theorem unmarshal_ok_iff (p : Proto) (strict : Bool) (ty : Ty) (b : Bytes) (v : Val) :
     unmarshal p strict ty b = .ok v ↔
-      decode p strict (4 * b.length + 64 + depth ty) ty b (zeroOf ty) = .ok (v, []) := by
+      decode p strict 0 (4 * b.length + 64 + depth ty) ty b (zeroOf ty) = .ok (v, []) := by
   unfold unmarshal
-  cases hd : decode p strict (4 * b.length + 64 + depth ty) ty b (zeroOf ty) with
+  cases hd : decode p strict 0 (4 * b.length + 64 + depth ty) ty b (zeroOf ty) with
   | ok vr =>
     obtain ⟨v', r⟩ := vr
     cases r with
@@ -247,14 +266,14 @@ theorem unmarshal_ok_iff (p : Proto) (strict : Bool) (ty : Ty) (b : Bytes) (v : 
 
 /-- whatever fuel the successful decode was observed with: bytes left over make `Unmarshal` answer `"trailing"` -/
 theorem unmarshal_trailing (p : Proto) (strict : Bool) (ty : Ty) (b : Bytes) (fuel : Nat) (v : Val) (r : Bytes)
-    (h : decode p strict fuel ty b (zeroOf ty) = .ok (v, r)) (hr : r ≠ []) :
+    (h : decode p strict 0 fuel ty b (zeroOf ty) = .ok (v, r)) (hr : r ≠ []) :
     unmarshal p strict ty b = .err "trailing" := by
-  have hnf := decode_ne_fuel p strict (4 * b.length + 64 + depth ty) ty b (zeroOf ty) (by omega)
-  have hown : decode p strict (4 * b.length + 64 + depth ty) ty b (zeroOf ty) = .ok (v, r) := by
+  have hnf := decode_ne_fuel p strict 0 (4 * b.length + 64 + depth ty) ty b (zeroOf ty) (by omega)
+  have hown : decode p strict 0 (4 * b.length + 64 + depth ty) ty b (zeroOf ty) = .ok (v, r) := by
     rcases Nat.le_total fuel (4 * b.length + 64 + depth ty) with hle | hle
-    · have := (decode_mono p strict _ _ hle ty b (zeroOf ty)).eq (by rw [h]; intro h'; cases h')
+    · have := (decode_mono p strict 0 _ _ hle ty b (zeroOf ty)).eq (by rw [h]; intro h'; cases h')
       rw [this, h]
-    · have := (decode_mono p strict _ _ hle ty b (zeroOf ty)).eq hnf
+    · have := (decode_mono p strict 0 _ _ hle ty b (zeroOf ty)).eq hnf
       rw [← this, h]
   unfold unmarshal
   rw [hown]
@@ -267,7 +286,7 @@ theorem unmarshal_append_trailing (p : Proto) (strict : Bool) (ty : Ty) (b extra
     (h : unmarshal p strict ty b = .ok v) (he : extra ≠ []) :
     unmarshal p strict ty (b ++ extra) = .err "trailing" := by
   rw [unmarshal_ok_iff] at h
-  have h1 : decode p strict (4 * b.length + 64 + depth ty) ty (b ++ extra) (zeroOf ty) = .ok (v, extra) :=
+  have h1 : decode p strict 0 (4 * b.length + 64 + depth ty) ty (b ++ extra) (zeroOf ty) = .ok (v, extra) :=
     decode_local (x := b) (r := []) (by simpa using h) extra
   exact unmarshal_trailing p strict ty _ _ v extra h1 he
 
@@ -279,9 +298,9 @@ theorem unmarshal_trunc_strict (p : Proto) (strict : Bool) (ty : Ty) (b : Bytes)
   rw [unmarshal_ok_iff] at h
   have he := decode_trunc_strict h k (by simpa using hk)
   have hlen : (b.take k).length = k := by simp; omega
-  have hle := decode_mono p strict (4 * (b.take k).length + 64 + depth ty) (4 * b.length + 64 + depth ty)
+  have hle := decode_mono p strict 0 (4 * (b.take k).length + 64 + depth ty) (4 * b.length + 64 + depth ty)
     (by rw [hlen]; omega) ty (b.take k) (zeroOf ty)
-  have hnf := decode_ne_fuel p strict (4 * (b.take k).length + 64 + depth ty) ty (b.take k) (zeroOf ty) (by omega)
+  have hnf := decode_ne_fuel p strict 0 (4 * (b.take k).length + 64 + depth ty) ty (b.take k) (zeroOf ty) (by omega)
   have h2 := hle.eq hnf
   unfold unmarshal
   rw [← h2, he]
@@ -295,37 +314,43 @@ theorem unmarshal_trunc (p : Proto) (strict : Bool) (ty : Ty) (b : Bytes) (v : V
                                               simp [this]⟩
 
 /-- round trip at the entry point with `Unmarshal`'s own budget (the existing `decode_encode` needs `fuelD`, which can
-exceed it; monotonicity + `decode_ne_fuel` close the gap) -/
-theorem unmarshal_marshal (p : Proto) (strict : Bool) (ty : Ty) (v : Val) (h : RT ty v = true) :
+exceed it; monotonicity + `decode_ne_fuel` close the gap); the type's nesting must fit the decoder's depth limit -/
+theorem unmarshal_marshal (p : Proto) (strict : Bool) (ty : Ty) (v : Val) (h : RT ty v = true)
+    (hn : nest ty ≤ Gen.c_thrift_maxDepth) :
     unmarshal p strict ty (marshal p ty v) = .ok v := by
   rw [unmarshal_ok_iff]
   unfold marshal
-  have hbig := decode_encode p strict ty v h (fuelD ty v + (4 * (encode p ty v).length + 64 + depth ty)) []
-    (zeroOf ty) (by omega)
+  have hbig := decode_encode p strict ty v h 0 (fuelD ty v + (4 * (encode p ty v).length + 64 + depth ty)) []
+    (zeroOf ty) (by omega) (by omega)
   rw [List.append_nil] at hbig
-  have hle := decode_mono p strict (4 * (encode p ty v).length + 64 + depth ty)
+  have hle := decode_mono p strict 0 (4 * (encode p ty v).length + 64 + depth ty)
     (fuelD ty v + (4 * (encode p ty v).length + 64 + depth ty)) (by omega) ty (encode p ty v) (zeroOf ty)
-  have hnf := decode_ne_fuel p strict (4 * (encode p ty v).length + 64 + depth ty) ty (encode p ty v) (zeroOf ty)
+  have hnf := decode_ne_fuel p strict 0 (4 * (encode p ty v).length + 64 + depth ty) ty (encode p ty v) (zeroOf ty)
     (by omega)
   rw [← hbig]
   exact (hle.eq hnf).symm
 
 /-- **C08 truncation for `Marshal` output, universe `RT`.** -/
 theorem unmarshal_marshal_trunc_strict (p : Proto) (strict : Bool) (ty : Ty) (v : Val) (h : RT ty v = true)
-    (k : Nat) (hk : k < (marshal p ty v).length) :
+    (hn : nest ty ≤ Gen.c_thrift_maxDepth) (k : Nat) (hk : k < (marshal p ty v).length) :
     unmarshal p strict ty ((marshal p ty v).take k) = .err (if k = 0 then "eof" else "unexpectedEof") :=
-  unmarshal_trunc_strict p strict ty _ v (unmarshal_marshal p strict ty v h) k hk
+  unmarshal_trunc_strict p strict ty _ v (unmarshal_marshal p strict ty v h hn) k hk
 
 theorem unmarshal_marshal_trunc (p : Proto) (strict : Bool) (ty : Ty) (v : Val) (h : RT ty v = true)
-    (k : Nat) (hk : k < (marshal p ty v).length) :
+    (hn : nest ty ≤ Gen.c_thrift_maxDepth) (k : Nat) (hk : k < (marshal p ty v).length) :
     (k = 0 → unmarshal p strict ty ((marshal p ty v).take k) = .err "eof") ∧
       (0 < k → unmarshal p strict ty ((marshal p ty v).take k) = .err "unexpectedEof") :=
-  unmarshal_trunc p strict ty _ v (unmarshal_marshal p strict ty v h) k hk
+  unmarshal_trunc p strict ty _ v (unmarshal_marshal p strict ty v h hn) k hk
+
+/-- the depth hypotheses are satisfiable (`maxDepth` = 10000; a list of lists of i32 nests 2 deep) -/
+example : nest (.slice (.slice (.int .i32))) ≤ Gen.c_thrift_maxDepth := by decide
+example : 0 + nest (.slice (.slice (.int .i32))) ≤ Gen.c_thrift_maxDepth := by decide
 
 /-- an encoding is never empty (so `k = 0` is always a proper prefix) -/
-theorem marshal_ne_nil (p : Proto) (strict : Bool) (ty : Ty) (v : Val) (h : RT ty v = true) :
+theorem marshal_ne_nil (p : Proto) (strict : Bool) (ty : Ty) (v : Val) (h : RT ty v = true)
+    (hn : nest ty ≤ Gen.c_thrift_maxDepth) :
     0 < (marshal p ty v).length := by
-  have := unmarshal_marshal p strict ty v h
+  have := unmarshal_marshal p strict ty v h hn
   rw [unmarshal_ok_iff] at this
   have := (decode_consumes this).2
   omega
@@ -336,45 +361,47 @@ theorem marshal_ne_nil (p : Proto) (strict : Bool) (ty : Ty) (v : Val) (h : RT t
 `encode p ty v` is rejected with the exact EOF class, whatever well-shaped target it is decoded into. In particular a
 cut exactly at a field boundary of a struct (where the loop expects a header or the stop byte) and a cut that drops a
 `required` field are `"unexpectedEof"`, not `"missingField"` and not a success. -/
-theorem decode_encode_trunc_DT (p : Proto) (strict : Bool) (ty : Ty) (v : Val) (h : DT ty v = true) :
+theorem decode_encode_trunc_DT (p : Proto) (strict : Bool) (ty : Ty) (v : Val) (h : DT ty v = true) (d : Nat)
+    (hd : d + nest ty ≤ Gen.c_thrift_maxDepth) :
     ∃ F, ∀ fuel, F ≤ fuel → ∀ cur, Shape ty cur = true → ∀ k, k < (encode p ty v).length →
-      decode p strict fuel ty ((encode p ty v).take k) cur = .err (if k = 0 then "eof" else "unexpectedEof") := by
-  obtain ⟨F, hF⟩ := decode_ok p strict ty v h
+      decode p strict d fuel ty ((encode p ty v).take k) cur = .err (if k = 0 then "eof" else "unexpectedEof") := by
+  obtain ⟨F, hF⟩ := decode_ok p strict ty v h d hd
   refine ⟨F, fun fuel hf cur hc k hk => ?_⟩
   obtain ⟨v', hv', _⟩ := hF fuel hf [] cur hc
   rw [List.append_nil] at hv'
   exact decode_trunc_strict hv' k (by simpa using hk)
 
 /-- `Unmarshal ∘ Marshal` succeeds on `DT`, with `Unmarshal`'s own budget -/
-theorem unmarshal_marshal_ok (p : Proto) (strict : Bool) (ty : Ty) (v : Val) (h : DT ty v = true) :
+theorem unmarshal_marshal_ok (p : Proto) (strict : Bool) (ty : Ty) (v : Val) (h : DT ty v = true)
+    (hn : nest ty ≤ Gen.c_thrift_maxDepth) :
     ∃ v', unmarshal p strict ty (marshal p ty v) = .ok v' := by
-  obtain ⟨F, hF⟩ := decode_ok p strict ty v h
+  obtain ⟨F, hF⟩ := decode_ok p strict ty v h 0 (by omega)
   unfold marshal
   obtain ⟨v', hv', _⟩ := hF (F + (4 * (encode p ty v).length + 64 + depth ty)) (by omega) [] (zeroOf ty)
     (shape_zeroOf ty)
   rw [List.append_nil] at hv'
   refine ⟨v', ?_⟩
   rw [unmarshal_ok_iff]
-  have hle := decode_mono p strict (4 * (encode p ty v).length + 64 + depth ty)
+  have hle := decode_mono p strict 0 (4 * (encode p ty v).length + 64 + depth ty)
     (F + (4 * (encode p ty v).length + 64 + depth ty)) (by omega) ty (encode p ty v) (zeroOf ty)
-  have hnf := decode_ne_fuel p strict (4 * (encode p ty v).length + 64 + depth ty) ty (encode p ty v) (zeroOf ty)
+  have hnf := decode_ne_fuel p strict 0 (4 * (encode p ty v).length + 64 + depth ty) ty (encode p ty v) (zeroOf ty)
     (by omega)
   rw [← hv']
   exact (hle.eq hnf).symm
 
-/-- **C08 truncation for `Marshal` output, universe `DT`**: structs, lists, maps, sets, strings, scalars — exact class,
-no side condition -/
+/-- **C08 truncation for `Marshal` output, universe `DT`**: structs, lists, maps, sets, strings, scalars — exact class;
+the only side condition is that the type's nesting fits the decoder's depth limit -/
 theorem unmarshal_marshal_trunc_DT_strict (p : Proto) (strict : Bool) (ty : Ty) (v : Val) (h : DT ty v = true)
-    (k : Nat) (hk : k < (marshal p ty v).length) :
+    (hn : nest ty ≤ Gen.c_thrift_maxDepth) (k : Nat) (hk : k < (marshal p ty v).length) :
     unmarshal p strict ty ((marshal p ty v).take k) = .err (if k = 0 then "eof" else "unexpectedEof") := by
-  obtain ⟨v', hv'⟩ := unmarshal_marshal_ok p strict ty v h
+  obtain ⟨v', hv'⟩ := unmarshal_marshal_ok p strict ty v h hn
   exact unmarshal_trunc_strict p strict ty _ v' hv' k hk
 
 theorem unmarshal_marshal_trunc_DT (p : Proto) (strict : Bool) (ty : Ty) (v : Val) (h : DT ty v = true)
-    (k : Nat) (hk : k < (marshal p ty v).length) :
+    (hn : nest ty ≤ Gen.c_thrift_maxDepth) (k : Nat) (hk : k < (marshal p ty v).length) :
     (k = 0 → unmarshal p strict ty ((marshal p ty v).take k) = .err "eof") ∧
       (0 < k → unmarshal p strict ty ((marshal p ty v).take k) = .err "unexpectedEof") := by
-  obtain ⟨v', hv'⟩ := unmarshal_marshal_ok p strict ty v h
+  obtain ⟨v', hv'⟩ := unmarshal_marshal_ok p strict ty v h hn
   exact unmarshal_trunc p strict ty _ v' hv' k hk
 
 /-- non-vacuity of `DT` on a struct: `struct{A int32 "1,required"; B string "2"; C []int16 "3"; D *bool "4"}` with
